@@ -7,6 +7,7 @@ Each check_Cxx(ctx) generates cases, runs both sides, records
 from .core import *
 from .gen import *
 from .framework import Ctx
+import hashlib
 
 def accepted(c, mo, io=None):
     return mo.get('accept') == '1'
@@ -82,4 +83,861 @@ def check_C10(ctx):
     for c in cs.cases[:: max(1, len(cs.cases) // 8)]:
         ctx.sample(c, res)
 
-CHECKS = {'C14': check_C14, 'C10': check_C10}
+
+def spec_violations(ctx, what):
+    """for outcome-fixing properties the proved model is the specification:
+    a disagreement on an in-scope input is a failing input of the property"""
+    for (c, f, i, m) in ctx.mismatches:
+        if f in ('model-observation', 'impl-observation', 'exception'):
+            continue
+        ctx.violation('%s: implementation %s=%s, specification (proved model) %s=%s' % (what, f, i, f, m), [c])
+
+def spread_samples(ctx, cs, res, k=8):
+    for c in cs.cases[:: max(1, len(cs.cases) // k)]:
+        ctx.sample(c, res)
+
+# ----------------------------------------------------------------------------
+NONNUM = [ABSENT, ('nil',), ('b', True), S('1'), S('abc'), ('m', []), ('m', [(b'a', I(1))]), ('o', 1), ('o', 9), ('o', 6), ('o', 7), ('str', b'1'), ('o', 11)]
+
+def rand_int_text(rng):
+    k = rng.choice([0, 1, 2, 3, 10, 16, 18, 19, 20, 40])
+    if k == 0:
+        return rng.choice(['0', '-0', '1', '-1'])
+    s = str(rng.randrange(1, 10)) + ''.join(str(rng.randrange(10)) for _ in range(k - 1))
+    return ('-' if rng.random() < 0.4 else '') + s
+
+def rand_double_text(rng):
+    ip = rng.choice(['0', str(rng.randrange(1, 10)) + ''.join(str(rng.randrange(10)) for _ in range(rng.choice([0, 0, 1, 3, 15, 17, 25])))])
+    fp = ''.join(str(rng.randrange(10)) for _ in range(rng.choice([1, 1, 2, 5, 17, 30])))
+    ex = ''
+    if rng.random() < 0.4:
+        ex = rng.choice('eE') + rng.choice(['', '+', '-']) + str(rng.choice([0, 1, 2, 5, 10, 22, 23, 100, 300, 308, 309, 310, 323, 324, 325, 400]))
+    return ('-' if rng.random() < 0.3 else '') + ip + '.' + fp + ex
+
+def rand_num_attr(rng, near=None):
+    k = rng.randrange(8)
+    if near is not None and k < 5:
+        try:
+            x = float(near)
+        except (ValueError, OverflowError):
+            x = 1.0
+        if k == 0 and abs(x) < 2**62: return I(int(x))
+        if k == 1 and abs(x) < 2**62: return I(int(x) + rng.choice([-1, 1]))
+        if k == 2: return F(x)
+        if k == 3 and x == x and abs(x) != float('inf'):
+            import math
+            return F(math.nextafter(x, rng.choice([-math.inf, math.inf])))
+        if abs(x) < 2**62: return ('i64', int(x))
+    if k == 5: return I(rng.randrange(-2**63, 2**63))
+    if k == 6: return F(struct.unpack('>d', struct.pack('>Q', rng.randrange(2**64)))[0])
+    return F(rng.uniform(-10, 10))
+
+def check_C03(ctx):
+    cs = CaseSet()
+    lits = [('long', l) for l in LONG_LITS] + [('double', d) for d in DOUBLE_LITS]
+    fam_leaf_exh(cs, ctx.rng, ops=REL, literals=lits, attrs=INT_ATTRS + FLOAT_ATTRS + NONNUM, fam='num-pool')
+    # random literals with attributes near them, inside compounds too
+    for _ in range(ctx.n(1500, 60000)):
+        if ctx.rng.random() < 0.5:
+            lit = ('long', rand_int_text(ctx.rng))
+        else:
+            lit = ('double', rand_double_text(ctx.rng))
+        a = rand_num_attr(ctx.rng, lit[1])
+        op = ctx.rng.choice(REL)
+        text = 'x ' + ctx.rng.choice(OP_SPELL[op]) + ' ' + lit[1]
+        if ctx.rng.random() < 0.2:
+            text = ctx.rng.choice(['k eq 1 and %s', '%s or k eq 2', 'not (not (%s))', '(%s)']) % text
+        cs.eval(text, ('m', [(b'x', a), (b'k', I(1))]), 'num-random', attr=a, lit=lit, op=op)
+    # the literal parsers of the model against strconv directly
+    for d in DOUBLE_LITS:
+        cs.simple('pfloat', hx(d), 'pfloat-pool')
+    for _ in range(ctx.n(1500, 60000)):
+        cs.simple('pfloat', hx(rand_double_text(ctx.rng)), 'pfloat-random')
+    for l in LONG_LITS:
+        cs.simple('pint', hx(l), 'pint-pool')
+    for _ in range(ctx.n(300, 5000)):
+        cs.simple('pint', hx(rand_int_text(ctx.rng)), 'pint-random')
+    for a in INT_ATTRS:
+        cs.simple('i2f', str(a[1]), 'i2f-pool')
+    for _ in range(ctx.n(500, 20000)):
+        z = ctx.rng.randrange(-2**63, 2**63) >> ctx.rng.choice([0, 0, 5, 9, 10, 11, 12, 30])
+        cs.simple('i2f', str(z), 'i2f-random')
+    res = ctx.run(cs)
+    ev = [c for c in cs.cases if c.kind == 'eval']
+    ctx.compare(ev, res, ['verdict', 'err'], scope=accepted)
+    spec_violations(ctx, 'numeric comparison')
+    n0 = len(ctx.mismatches)
+    ctx.compare([c for c in cs.cases if c.kind in ('pfloat', 'i2f')], res, ['f'])
+    ctx.compare([c for c in cs.cases if c.kind == 'pint'], res, ['i'])
+    if len(ctx.mismatches) > n0:
+        ctx.notes.append('literal conversion of the model (parse_float / parse_int / f64_of_Z) differs from strconv / Go conversion')
+    ctx.extra['exhaustive_part'] = 'num-pool: 6 operators x %d literals x %d attribute values' % (len(lits), len(INT_ATTRS + FLOAT_ATTRS + NONNUM))
+    spread_samples(ctx, cs, res)
+
+# ----------------------------------------------------------------------------
+STR_OPS = ['EQ', 'NE', 'GT', 'LT', 'GE', 'LE', 'CO', 'SW', 'EW']
+ALPHA = ['a', 'b', 'A', 'B', 'c', ' ', 'É', 'é', 'ß', 'Σ', 'σ', 'ς', 'İ', 'ı', 'K', 'k', 'K', 'Ǆ', 'ǅ', 'ǆ', '日', '1', '.', '-', '_']
+
+def rand_str(rng, maxlen=6):
+    return ''.join(rng.choice(ALPHA) for _ in range(rng.randrange(maxlen + 1)))
+
+def check_C04(ctx):
+    cs = CaseSet()
+    lits = [('string', s) for s in STR_LITS]
+    nonstr = [ABSENT, ('nil',), ('b', True), I(1), F(1.5), ('m', []), ('o', 1), ('o', 8), ('o', 13), ('o', 17)]
+    fam_leaf_exh(cs, ctx.rng, ops=STR_OPS, literals=lits, attrs=STR_ATTRS + STRINGER_ATTRS + nonstr, fam='str-pool')
+    for _ in range(ctx.n(2500, 90000)):
+        lit = rand_str(ctx.rng, 4)
+        r = ctx.rng.random()
+        if r < 0.3:
+            a = rand_str(ctx.rng, 2) + ctx.rng.choice([lit, lit.upper(), lit.lower(), lit.swapcase()]) + rand_str(ctx.rng, 2)
+        elif r < 0.4:
+            a = lit.swapcase()
+        else:
+            a = rand_str(ctx.rng)
+        av = S(a) if ctx.rng.random() < 0.85 else ('str', a.encode())
+        if ctx.rng.random() < 0.05:
+            av = S(a.encode() + bytes([ctx.rng.randrange(128, 256)]))
+        op = ctx.rng.choice(STR_OPS)
+        cs.eval('x %s "%s"' % (ctx.rng.choice(OP_SPELL[op]), lit), ('m', [(b'x', av)]), 'str-random', attr=av, lit=('string', lit), op=op)
+    # strings.ToLower of the model (generated table + Map model) against the real one: every mapped code point
+    import importlib
+    pairs = []
+    for line in open(os.path.join(VERIF, 'coq', 'LowerGen.v'), encoding='utf-8'):
+        line = line.strip().rstrip(';').rstrip('].')
+        if line.startswith('('):
+            try:
+                a, b = line.strip('()').split(',')
+                pairs.append(int(a))
+            except ValueError:
+                pass
+    chunk = []
+    for cp in pairs + [0x41, 0x5a, 0x130, 0x3a3, 0xfffd, 0x10ffff, 0xd7ff, 0xe000]:
+        chunk.append(cp)
+        if len(chunk) == 16:
+            cs.simple('lower', hx(''.join(chr(c) for c in chunk).encode('utf-8', 'surrogatepass')), 'lower-table')
+            chunk = []
+    if chunk:
+        cs.simple('lower', hx(''.join(chr(c) for c in chunk).encode('utf-8')), 'lower-table')
+    for _ in range(ctx.n(200, 5000)):
+        b = bytes(ctx.rng.choice([97, 90, 0xc3, 0x89, 0xe2, 0x84, 0xaa, 0xff, 0xed, 0xa0, 0x80, 0xf0, 0x90, 0x90, 0x80, 32]) for _ in range(ctx.rng.randrange(12)))
+        cs.simple('lower', hx(b), 'lower-bytes')
+    res = ctx.run(cs)
+    ev = [c for c in cs.cases if c.kind == 'eval']
+    ctx.compare(ev, res, ['verdict', 'err'], scope=accepted)
+    spec_violations(ctx, 'string comparison')
+    ctx.compare([c for c in cs.cases if c.kind == 'lower'], res, ['lower'])
+    ctx.extra['oracle_misses'] = 0
+    spread_samples(ctx, cs, res)
+
+# ----------------------------------------------------------------------------
+def rand_version(rng, valid=True):
+    comp = lambda: str(rng.choice([0, 1, 2, 9, 10, 11, 99, 100, rng.randrange(2**64)]))
+    s = '.'.join(comp() for _ in range(3))
+    if rng.random() < 0.5:
+        ids = []
+        for _ in range(rng.randint(1, 3)):
+            ids.append(rng.choice(['alpha', 'beta', 'rc', '1', '2', '10', '0', 'x-y', 'a1', '1a', 'A', 'b']))
+        s += '-' + '.'.join(ids)
+    if rng.random() < 0.3:
+        s += '+' + '.'.join(rng.choice(['build', '5', 'sha', '001', 'a-b']) for _ in range(rng.randint(1, 2)))
+    if not valid:
+        k = rng.randrange(8)
+        if k == 0: s = 'v' + s
+        elif k == 1: s = s.rsplit('.', 1)[0] if s.count('.') >= 2 else s
+        elif k == 2: s = s + '.'
+        elif k == 3: s = '0' + s
+        elif k == 4: s = s + '-'
+        elif k == 5: s = s.replace('.', '..', 1)
+        elif k == 6: s = s + '+'
+        else: s = s + rng.choice(['_', ' ', 'É', '-01', '+b_c'])
+    return s
+
+def check_C09(ctx):
+    cs = CaseSet()
+    lits = [('version', v) for v in VER_LITS]
+    other = [ABSENT, ('nil',), ('b', True), I(1), F(1.0), ('m', []), ('o', 17), ('str', b'1.0.0'), ('strptr', b'1.0.0'), ('strpanic',), ('o', 8)]
+    fam_leaf_exh(cs, ctx.rng, ops=REL, literals=lits, attrs=VER_ATTRS + other, fam='ver-pool')
+    for _ in range(ctx.n(2500, 80000)):
+        lit = '.'.join(str(ctx.rng.choice([0, 1, 2, 9, 10, 11, 99, 100, 2**64 - 1, 2**64])) for _ in range(3))
+        r = ctx.rng.random()
+        if r < 0.3:
+            a = lit + ctx.rng.choice(['', '-beta', '-1', '+b', '-rc.1', '-alpha.beta', '-0'])
+        else:
+            a = rand_version(ctx.rng, valid=ctx.rng.random() < 0.75)
+        op = ctx.rng.choice(REL)
+        cs.eval('x %s %s' % (ctx.rng.choice(OP_SPELL[op]), lit), ('m', [(b'x', S(a))]), 'ver-random', attr=S(a), lit=('version', lit), op=op)
+    for v in [a[1] for a in VER_ATTRS]:
+        cs.simple('semver', hx(v), 'semver-pool')
+    for _ in range(ctx.n(1000, 30000)):
+        cs.simple('semver', hx(rand_version(ctx.rng, valid=ctx.rng.random() < 0.5)), 'semver-random')
+    res = ctx.run(cs)
+    ev = [c for c in cs.cases if c.kind == 'eval']
+    ctx.compare(ev, res, ['verdict', 'err'], scope=accepted)
+    spec_violations(ctx, 'version comparison')
+    ctx.compare([c for c in cs.cases if c.kind == 'semver'], res, ['ok'])
+    # the Gallina port is of this source file
+    try:
+        import subprocess as sp
+        env = dict(os.environ, GOFLAGS='-mod=mod', GOPROXY='off', GOSUMDB='off', GOTOOLCHAIN='local')
+        d = sp.run(['go', 'list', '-m', '-f', '{{.Dir}}', 'github.com/blang/semver'], cwd=os.path.join(VERIF, 'driver'), env=env, stdout=sp.PIPE, stderr=sp.PIPE, timeout=120).stdout.decode().strip()
+        h = hashlib.sha256(open(os.path.join(d, 'semver.go'), 'rb').read()).hexdigest()
+        ctx.extra['semver_go_sha256'] = h
+        if h != SEMVER_SHA:
+            ctx.mismatches.append((Case('semver-src', 'src', '(semver.go sha256 %s)' % h, 'source'), 'semver.go sha256', h, SEMVER_SHA))
+            ctx.notes.append('the semver library resolved by go.mod is not the file Semver.v was ported from')
+    except Exception as e:
+        ctx.notes.append('could not hash semver.go: %r' % e)
+    spread_samples(ctx, cs, res)
+
+SEMVER_SHA = '6c33b913dd6c875e5f526b385f319b9d8b7d881ce25e41ed98da530f482fde61'
+
+CHECKS = {'C14': check_C14, 'C10': check_C10, 'C03': check_C03, 'C04': check_C04, 'C09': check_C09}
+
+# ----------------------------------------------------------------------------
+def expand_in(path, lit):
+    """p in [v1..vn]  ->  p eq v1 or ... or p eq vn"""
+    kind = {'ints': 'long', 'doubles': 'double', 'strings': 'string'}[lit[0]]
+    q = None
+    for v in lit[1]:
+        leaf = ('cmp', path, 'EQ', (kind, v))
+        q = leaf if q is None else ('logic', 'or', q, leaf)
+    return q
+
+def check_C08(ctx):
+    cs = CaseSet()
+    groups = []   # (in-case, expanded-case, [variant cases])
+    lists = [('ints', l) for l in INTS_LITS if '9223372036854775808' not in l] + \
+            [('doubles', l) for l in DOUBLES_LITS if '1.0e999' not in l] + [('strings', l) for l in STRINGS_LITS]
+    attrs = INT_ATTRS + FLOAT_ATTRS + STR_ATTRS + STRINGER_ATTRS[:5] + [ABSENT, ('nil',), ('b', True), ('m', []), ('o', 1), ('o', 9)]
+    def add_group(lit, a, fam, path=['x'], ctxfmt='%s'):
+        o = mk_obj(path, a, extra={'k': I(1)})
+        st = Style(ctx.rng)
+        c_in = cs.eval(ctxfmt % render(('cmp', path, 'IN', lit), st), o, fam, attr=a, lit=lit)
+        c_eq = cs.eval(ctxfmt % ('(' + render(expand_in(path, lit)) + ')'), o, fam + '-expanded', attr=a, lit=lit)
+        vs = []
+        perm = list(lit[1]); ctx.rng.shuffle(perm)
+        dup = perm + [ctx.rng.choice(perm)]
+        for l2 in (perm, dup, list(reversed(lit[1]))):
+            vs.append(cs.eval(ctxfmt % render(('cmp', path, 'IN', (lit[0], l2)), Style(ctx.rng)), o, fam + '-perm', attr=a, lit=(lit[0], l2)))
+        groups.append((c_in, c_eq, vs))
+    for lit in lists:
+        for a in attrs:
+            add_group(lit, a, 'in-pool')
+    for _ in range(ctx.n(600, 20000)):
+        k = ctx.rng.choice(['ints', 'doubles', 'strings'])
+        n = ctx.rng.randint(1, 5)
+        if k == 'ints':
+            l = [str(ctx.rng.choice([0, 1, 2, 5, 7, 100, 2**53, 2**53 + 1, 2**63 - 1])) for _ in range(n)]
+            a = ctx.rng.choice([I(int(ctx.rng.choice(l))), F(float(ctx.rng.choice(l))), ('i32', ctx.rng.choice([0, 1, 2, 5, 7])), ('i64', int(ctx.rng.choice(l))), F(1.5), I(3), S('1')])
+        elif k == 'doubles':
+            l = [ctx.rng.choice(['0.5', '1.0', '1.5', '2.0', '2.50', '100.25', '1.0e2', '0.1']) for _ in range(n)]
+            a = ctx.rng.choice([F(float(ctx.rng.choice(l))), I(1), I(2), I(100), F(0.3), ('i64', 1), S('1.5')])
+        else:
+            l = [rand_str(ctx.rng, 3) for _ in range(n)]
+            pick = ctx.rng.choice(l)
+            a = ctx.rng.choice([S(pick), S(pick.swapcase()), S(pick + 'x'), ('str', pick.upper().encode()), I(1), S(rand_str(ctx.rng, 3))])
+        fmt = ctx.rng.choice(['%s', '%s', 'k eq 1 and %s', '%s or k eq 2', 'not (%s)', 'k in [3,4] or %s', '%s and k in [1]', 'q in ["z"] or %s'])
+        add_group((k, l), a, 'in-random', path=ctx.rng.choice([['x'], ['n', 'x']]), ctxfmt=fmt)
+    res = ctx.run(cs)
+    ctx.compare(cs.cases, res, ['verdict', 'err'], scope=accepted)
+    for c_in, c_eq, vs in groups:
+        a, b = res.impl.get(c_in.id), res.impl.get(c_eq.id)
+        if not a or not b:
+            continue
+        if outcome(a) != outcome(b):
+            ctx.violation('`in` differs from its eq-disjunction: %s vs %s' % (outcome(a), outcome(b)), [c_in, c_eq])
+        for v in vs:
+            x = res.impl.get(v.id)
+            if x and outcome(x) != outcome(a):
+                ctx.violation('`in` depends on order/repetition of the list: %s vs %s' % (outcome(a), outcome(x)), [c_in, v])
+    if ctx.mismatches and not ctx.violations:
+        spec_violations(ctx, 'list membership')
+    spread_samples(ctx, cs, res)
+
+# ----------------------------------------------------------------------------
+def fail_compounds(ctx, cs, n, fam='shape-fail'):
+    """random compounds whose leaves may be unsupported-operator comparisons; objects decide what is reached"""
+    out = []
+    for _ in range(n):
+        k = ctx.rng.randint(1, 6)
+        q, info = random_query(ctx.rng, k, lambda: typed_leaf(ctx.rng, allow_fail=True))
+        text = render(q, Style(ctx.rng) if ctx.rng.random() < 0.3 else Style())
+        for _ in range(2):
+            o = object_for(ctx.rng, info)
+            # now and then a hostile Stringer where a string leaf would read it
+            if ctx.rng.random() < 0.15 and info:
+                leaf = ctx.rng.choice(info)[0]
+                if len(leaf[1]) == 1:
+                    o = ('m', [(k_, v) for (k_, v) in o[1] if k_ != leaf[1][0].encode()] + [(leaf[1][0].encode(), ('strpanic',))])
+            out.append(cs.eval(text, o, fam, q=q))
+    return out
+
+def check_C06(ctx):
+    cs = CaseSet()
+    fam_leaf_exh(cs, ctx.rng, stride=ctx.n(3, 1))
+    fail_compounds(ctx, cs, ctx.n(1500, 40000))
+    # sticky failure: something after the first failing comparison
+    tails = ['b le "bc" or k in [1]', 'b eq 99999999999999999999', 'k in [1.5]', 'k in ["s"]', 'c co 1', 'k eq 1', 'd in [99999999999999999999]', 'e in [1.0e999]']
+    heads = ['a gt null', 'a co 1', 'a in true', 'a sw 1.0.0', 'a in 1.0.0', 'a ew 1.5', 'a lt false', 'a co [1,2]']
+    for h in heads:
+        for t in tails:
+            for fmt in ['%s or %s', 'not (%s) and %s', '(%s or %s) or z pr', '%s or (%s and z pr)', 'k eq 2 or %s or %s', 'k eq 1 and %s and %s']:
+                for o in (obj({}), obj({'k': I(1), 'a': I(1), 'b': S('x')}), obj({'a': ('nil',), 'k': I(1)})):
+                    cs.eval(fmt % (h, t), o, 'sticky')
+    res = ctx.run(cs)
+    ctx.compare(cs.cases, res, ['verdict', 'err'], scope=accepted)
+    spec_violations(ctx, 'failure/verdict')
+    ctx.exhaustive = ctx.tier != 'quick'
+    spread_samples(ctx, cs, res)
+
+def check_C16(ctx):
+    cs = CaseSet()
+    fam_leaf_exh(cs, ctx.rng, stride=ctx.n(2, 1))
+    fam_pr_exh(cs, ctx.rng)
+    fail_compounds(ctx, cs, ctx.n(1500, 40000), fam='shape-reached')
+    for path in (['n', 'x'], ['n', 'y', 'z']):
+        for a in [ABSENT, ('nil',), I(1), S('a'), ('b', True), F(1.5), S('1.0.0')]:
+            for o in nested_variants(path, a):
+                for lit in ['1', '1.5', '"a"', 'true', 'null', '1.0.0', '[1]', '["a"]', '[1.5]']:
+                    for op in ['eq', 'le', 'in', 'co']:
+                        cs.eval('%s %s %s' % ('.'.join(path), op, lit), o, 'nested-dbg')
+    res = ctx.run(cs)
+    ctx.compare(cs.cases, res, ['dbg'], scope=accepted)
+    spec_violations(ctx, 'LastDebugErr')
+    for c in cs.cases:
+        io = res.impl.get(c.id)
+        if io and io.get('dbg') not in (None, 'nil') and io.get('dbgtext') != 'ok':
+            ctx.violation('LastDebugErr().Error() %s' % ('panicked' if io.get('dbgtext') == 'panic' else 'returned an empty text'), [c], impl=io)
+    ctx.exhaustive = ctx.tier != 'quick'
+    spread_samples(ctx, cs, res)
+
+# ----------------------------------------------------------------------------
+def lit_sort_key(kind, text):
+    if kind == 'long': return int(text)
+    if kind == 'double': return float(text)
+    if kind == 'string': return text.lower().encode()
+    if kind == 'version': return tuple(int(x) for x in text.split('.'))
+
+def right_sx(kind, text):
+    if kind == 'long': return '(i %s)' % int(text)
+    if kind == 'double': return '(f %d)' % fbits(float(text))
+    return '(s %s)' % hx(text)
+
+OPT = {'long': 'int', 'double': 'float', 'string': 'string', 'version': 'version'}
+
+def check_C18(ctx):
+    cs = CaseSet()
+    pools = {
+        'long': (['-9223372036854775808', '-7', '-1', '0', '1', '2', '5', '100', '9007199254740992', '9007199254740993', '9223372036854775807'],
+                 INT_ATTRS + FLOAT_ATTRS + [ABSENT, S('1'), ('nil',), ('b', True)]),
+        'double': (['-1.0e19', '-1.0', '-0.5', '0.0', '0.1', '0.30000000000000004', '1.0', '1.5', '1.7', '2.0', '2.5', '100.0', '9007199254740993.0', '1.0e19', '1.0e308'],
+                   [a for a in INT_ATTRS if a[0] == 'i'] + FLOAT_ATTRS + [('i64', 1), ABSENT, S('1.5'), ('nil',)]),
+        'string': (['', ' ', 'A', 'ab', 'ABC', 'abd', 'b', 'B c'],
+                   [S(x) for x in ['', 'abc', 'ABC', 'aBc', 'ab', 'b', 'a', ' ', 'abd', 'B']] + [('str', b'abc'), ABSENT, I(1), ('nil',), ('o', 8)]),
+        'version': (['0.0.0', '1.0.0', '1.0.1', '1.9.0', '1.10.0', '2.0.0', '10.2.33', '18446744073709551615.0.0'],
+                    VER_ATTRS + [ABSENT, I(1), ('str', b'1.0.0'), ('nil',)]),
+    }
+    vectors = []   # (kind, attr, literal, {op: rule-case}, {op: call-case})
+    for kind, (lits, attrs) in pools.items():
+        extra = []
+        for _ in range(ctx.n(10, 300)):
+            if kind == 'long': extra.append(rand_int_text(ctx.rng))
+            elif kind == 'double':
+                t = rand_double_text(ctx.rng)
+                try:
+                    if abs(float(t)) != float('inf'): extra.append(t)
+                except (ValueError, OverflowError): pass
+            elif kind == 'string': extra.append(''.join(ctx.rng.choice('abAB c') for _ in range(ctx.rng.randrange(4))))
+            else: extra.append('.'.join(str(ctx.rng.choice([0, 1, 2, 9, 10, 11])) for _ in range(3)))
+        if kind == 'long':
+            extra = [t for t in extra if -2**63 <= int(t) < 2**63]
+        for lit in lits + extra:
+            pool_attrs = attrs if lit in lits else ctx.rng.sample(attrs, 6)
+            for a in pool_attrs:
+                rc, cc = {}, {}
+                ltext = '"%s"' % lit if kind == 'string' else lit
+                for op in REL:
+                    rc[op] = cs.eval('x %s %s' % (ctx.rng.choice(OP_SPELL[op]), ltext), mk_obj(['x'], a), 'six-' + kind, attr=a, lit=(kind, lit), op=op)
+                    if a != ABSENT:
+                        cc[op] = cs.opcall(OPT[kind], op, a, right_sx(kind, lit), 'call-' + kind)
+                vectors.append((kind, a, lit, rc, cc))
+    res = ctx.run(cs)
+    ctx.compare([c for c in cs.cases if c.kind == 'eval'], res, ['verdict', 'err'], scope=accepted)
+    ctx.compare([c for c in cs.cases if c.kind == 'opcall'], res, ['res', 'err'])
+    def is_nan(a):
+        return a[0] == 'f' and fbits(a[1]) == NAN_BITS
+    by_attr = {}
+    for kind, a, lit, rc, cc in vectors:
+        for src, cases, fld in (('rule', rc, 'verdict'), ('direct call', cc, 'res')):
+            if not cases:
+                continue
+            obs = {op: res.impl.get(c.id) for op, c in cases.items()}
+            if any(o is None or fld not in o for o in obs.values()):
+                continue
+            v = {op: obs[op][fld] == '1' for op in REL}
+            if is_nan(a):
+                continue
+            cl = [cases[op] for op in REL]
+            if any(v.values()):
+                if [v['LT'], v['EQ'], v['GT']].count(True) != 1:
+                    ctx.violation('%s: not exactly one of lt/eq/gt holds: %s' % (src, v), cl)
+                elif v['NE'] != (not v['EQ']) or v['LE'] != (v['LT'] or v['EQ']) or v['GE'] != (v['GT'] or v['EQ']):
+                    ctx.violation('%s: ne/le/ge are not derived from lt/eq/gt: %s' % (src, v), cl)
+            by_attr.setdefault((src, kind, val_sx(a) if a != ABSENT else 'absent'), []).append((lit, v, cases))
+    for (src, kind, _), rows in by_attr.items():
+        rows.sort(key=lambda r: lit_sort_key(kind, r[0]))
+        for i in range(len(rows) - 1):
+            (l1, v1, c1), (l2, v2, c2) = rows[i], rows[i + 1]
+            if lit_sort_key(kind, l1) == lit_sort_key(kind, l2):
+                continue
+            if not any(v1.values()) or not any(v2.values()):
+                continue
+            # a lt v -> a lt w for w > v ; a gt w -> a gt v for v < w  (adjacent pairs suffice: induction over the sorted pool)
+            if v1['LT'] and not v2['LT']:
+                ctx.violation('%s: order not monotone in the literal: a lt %s but not a lt %s' % (src, l1, l2), [c1['LT'], c2['LT']])
+            if v2['GT'] and not v1['GT']:
+                ctx.violation('%s: order not monotone in the literal: a gt %s but not a gt %s' % (src, l2, l1), [c2['GT'], c1['GT']])
+    ctx.exhaustive = True
+    spread_samples(ctx, cs, res)
+
+CHECKS.update({'C08': check_C08, 'C06': check_C06, 'C16': check_C16, 'C18': check_C18})
+
+# ----------------------------------------------------------------------------
+def bool_eval(q, leafval):
+    """plain Boolean reading of a rule tree given the verdict of each leaf (by identity)"""
+    k = q[0]
+    if k in ('pr', 'cmp'): return leafval(q)
+    if k == 'paren':
+        v = bool_eval(q[2], leafval)
+        return (not v) if q[1] else v
+    l, r = bool_eval(q[2], leafval), bool_eval(q[3], leafval)
+    return (l or r) if q[1] == 'or' else (l and r)
+
+def tree_sx(q):
+    """the canonical tree text both sides print for `syntax` cases"""
+    k = q[0]
+    px = lambda p: '.'.join(hx(x) for x in p)
+    if k == 'pr': return '(pr %s)' % px(q[1])
+    if k == 'paren': return '(%s %s)' % ('notparen' if q[1] else 'paren', tree_sx(q[2]))
+    if k == 'logic': return '(%s %s %s)' % (q[1], tree_sx(q[2]), tree_sx(q[3]))
+    v = q[3]
+    vk = v[0]
+    if vk == 'null': vs = '(null)'
+    elif vk == 'bool': vs = '(boolean %s)' % hx(v[1])
+    elif vk == 'string': vs = '(string %s)' % hx('"' + v[1] + '"')
+    elif vk in ('version', 'double', 'long'): vs = '(%s %s)' % (vk, hx(v[1]))
+    elif vk == 'strings': vs = '(strings %s)' % ','.join(hx('"' + x + '"') for x in v[1])
+    else: vs = '(%s %s)' % (vk, ','.join(hx(x) for x in v[1]))
+    return '(cmp %s %s %s)' % (px(q[1]), q[2], vs)
+
+def check_C01(ctx):
+    cs = CaseSet()
+    groups = []    # (compound case, query, {leaf-index: standalone case}, syntax case)
+    names = ['a', 'b', 'c', 'd', 'e', 'f']
+    # bool-exh: every shape with k leaves (pr tests on distinct attributes) x every assignment
+    kmax = ctx.n(3, 4)
+    nshape = 0
+    for k in range(1, kmax + 1):
+        for shape in all_shapes(k):
+            nshape += 1
+            lv = [('pr', [names[i]]) for i in range(k)]
+            q = instantiate(shape, lv)
+            text = render(q)
+            sc = cs.syntax(text, 'bool-exh-tree', q=q)
+            for bits in itertools.product([False, True], repeat=k):
+                o = obj({names[i]: I(1) for i in range(k) if bits[i]})
+                c = cs.eval(text, o, 'bool-exh', q=q, bits=bits)
+                groups.append((c, q, None, sc, {id(lv[i]): bits[i] for i in range(k)}))
+    # chains without parentheses: left associativity at equal precedence
+    for n in range(2, ctx.n(6, 9)):
+        for _ in range(ctx.n(30, 300)):
+            ops = [ctx.rng.choice(['and', 'or']) for _ in range(n - 1)]
+            lv = [('pr', [names[i % 6] + str(i // 6 or '')]) for i in range(n)]
+            prims = [('paren', True, l) if ctx.rng.random() < 0.3 else l for l in lv]
+            q = prims[0]
+            for op, p in zip(ops, prims[1:]):
+                q = ('logic', op, q, p)
+            text = render(q, Style(ctx.rng))
+            sc = cs.syntax(text, 'chain-tree', q=q)
+            for _ in range(4):
+                bits = [ctx.rng.random() < 0.5 for _ in range(n)]
+                o = obj({lv[i][1][0]: I(1) for i in range(n) if bits[i]})
+                c = cs.eval(text, o, 'chain', q=q)
+                groups.append((c, q, None, sc, {id(lv[i]): bits[i] for i in range(n)}))
+    # random shapes with typed, error-free leaves; leaf verdicts come from the implementation itself
+    for _ in range(ctx.n(700, 25000)):
+        k = ctx.rng.randint(2, ctx.n(7, 40))
+        q, info = random_query(ctx.rng, k, lambda: typed_leaf(ctx.rng, allow_fail=False))
+        text = render(q, Style(ctx.rng) if ctx.rng.random() < 0.5 else Style())
+        o = object_for(ctx.rng, info)
+        c = cs.eval(text, o, 'shape', q=q)
+        alone = {}
+        for leaf in leaves(q):
+            alone[id(leaf)] = cs.eval(render(leaf), o, 'shape-leaf', q=leaf)
+        sc = cs.syntax(text, 'shape-tree', q=q) if ctx.rng.random() < 0.3 else None
+        groups.append((c, q, alone, sc, None))
+    # deep nesting
+    for depth in ([10, 50] if ctx.quick else [10, 50, 200, 600]):
+        q = ('pr', ['a'])
+        for i in range(depth):
+            q = ('paren', i % 3 == 0, q) if i % 2 else ('logic', 'and' if i % 4 else 'or', q, ('pr', ['b']))
+        q = normalize(q)
+        for o in (obj({}), obj({'a': I(1)}), obj({'b': I(1)}), obj({'a': I(1), 'b': I(1)})):
+            bits = {'a': any(k == b'a' for k, _ in o[1]), 'b': any(k == b'b' for k, _ in o[1])}
+            c = cs.eval(render(q), o, 'deep', q=q)
+            groups.append((c, q, None, None, bits))
+    res = ctx.run(cs)
+    ctx.compare([c for c in cs.cases if c.kind == 'eval'], res, ['verdict', 'err'], scope=accepted)
+    ctx.compare([c for c in cs.cases if c.kind == 'syntax'], res, ['lexok', 'accept', 'tree'])
+    for c, q, alone, sc, bits in groups:
+        io = res.impl.get(c.id)
+        if not io:
+            continue
+        if alone is not None:
+            lo = {k: res.impl.get(v.id) for k, v in alone.items()}
+            if any(x is None or x.get('err') != 'none' for x in lo.values()):
+                continue      # out of C01's scope: some comparison is not individually error-free
+            want = bool_eval(q, lambda leaf: lo[id(leaf)]['verdict'] == '1')
+            extra = list(alone.values())
+        elif isinstance(bits, dict) and bits and isinstance(next(iter(bits)), str):
+            want = bool_eval(q, lambda leaf: bits[leaf[1][0]])
+            extra = []
+        else:
+            want = bool_eval(q, lambda leaf: bits[id(leaf)])
+            extra = []
+        if io.get('err') != 'none' or (io.get('verdict') == '1') != want:
+            ctx.violation('compound verdict %s/%s is not the Boolean combination (%s) of its comparisons' % (io.get('verdict'), io.get('err'), want), [c] + extra[:6])
+        if sc is not None:
+            so = res.impl.get(sc.id)
+            if so and so.get('tree') != tree_sx(q):
+                ctx.violation('the shipped parser groups the rule differently: %s, expected %s' % (so.get('tree'), tree_sx(q)), [sc])
+    ctx.extra['exhaustive_part'] = 'bool-exh: all %d shapes with <= %d leaves x all leaf assignments' % (nshape, kmax)
+    ctx.exhaustive = True
+    spread_samples(ctx, cs, res)
+
+# ----------------------------------------------------------------------------
+def check_C02(ctx):
+    cs = CaseSet()
+    groups = []
+    # P: comparisons whose path may stop early; L: neighbours of every literal kind
+    P_forms = ['%s eq 1', '%s ne 1', '%s pr', '%s eq null', '%s ne null', '%s eq "s"', '%s in [1,2]', '%s eq 1.5', '%s eq 1.0.0', '%s eq true', '%s in ["s"]', '%s lt 2', '%s co "s"']
+    L_forms = ['k eq 1', 'k eq 2', 'k in [1,2]', 'k in [3]', 's eq "v"', 's co "zz"', 's in ["V"]', 'k pr', 'zz pr', 'k eq 1.0', 'v eq 1.0.0', 'k ne null', 'q.r.s eq 1', 'k.j eq 1' if False else 'w.j eq 1', 'b eq true']
+    base = {'k': I(1), 's': S('v'), 'v': S('1.0.0'), 'b': ('b', True), 'w': {'j': I(1)}}
+    combos = ['%(L)s and %(P)s', '%(P)s and %(L)s', '%(L)s or %(P)s', '%(P)s or %(L)s', 'not (%(P)s) and %(L)s', '%(L)s and not (%(P)s)', '(%(L)s or %(P)s) and %(L)s', '%(P)s or %(P)s']
+    for path in (['x'], ['x', 'a'], ['x', 'a', 'b'], ['k', 'a'] if False else ['y', 'a', 'b', 'c']):
+        for a in [ABSENT, ('nil',), I(1), S('s'), I(2), ('m', [])]:
+            for o in nested_variants(path, a):
+                o = ('m', o[1] + obj(base)[1])
+                for pf in P_forms:
+                    P = pf % '.'.join(path)
+                    for lf in (L_forms if not ctx.quick else ctx.rng.sample(L_forms, 4)):
+                        for cb in (combos if not ctx.quick else ctx.rng.sample(combos, 3)):
+                            text = cb % {'L': lf, 'P': P}
+                            c = cs.eval(text, o, 'leak')
+                            groups.append((c, text, cb, cs.eval(lf, o, 'leak-alone'), cs.eval(P, o, 'leak-alone')))
+    # random compounds: each leaf alone vs in place (needs the Boolean reading; error-free leaves)
+    rnd = []
+    for _ in range(ctx.n(500, 15000)):
+        k = ctx.rng.randint(2, 8)
+        q, info = random_query(ctx.rng, k, lambda: typed_leaf(ctx.rng, allow_fail=False))
+        o = object_for(ctx.rng, info)
+        c = cs.eval(render(q), o, 'shape', q=q)
+        alone = {id(l): cs.eval(render(l), o, 'shape-leaf') for l in leaves(q)}
+        rnd.append((c, q, alone))
+    res = ctx.run(cs)
+    ctx.compare(cs.cases, res, ['verdict', 'err', 'dbg'], scope=accepted)
+    def comb(cb, L, P):
+        return {'%(L)s and %(P)s': L and P, '%(P)s and %(L)s': P and L, '%(L)s or %(P)s': L or P, '%(P)s or %(L)s': P or L,
+                'not (%(P)s) and %(L)s': (not P) and L, '%(L)s and not (%(P)s)': L and not P,
+                '(%(L)s or %(P)s) and %(L)s': (L or P) and L, '%(P)s or %(P)s': P}[cb]
+    for c, text, cb, cl, cp in groups:
+        io, lo, po = res.impl.get(c.id), res.impl.get(cl.id), res.impl.get(cp.id)
+        if not io or not lo or not po or lo['err'] != 'none' or po['err'] != 'none':
+            continue
+        want = comb(cb, lo['verdict'] == '1', po['verdict'] == '1')
+        if io['err'] != 'none' or (io['verdict'] == '1') != want:
+            ctx.violation('a comparison behaves differently inside a compound: `%s` gives %s/%s, its comparisons alone give %s and %s' % (text, io['verdict'], io['err'], lo['verdict'], po['verdict']), [c, cl, cp])
+    for c, q, alone in rnd:
+        io = res.impl.get(c.id)
+        lo = {k: res.impl.get(v.id) for k, v in alone.items()}
+        if not io or any(x is None or x['err'] != 'none' for x in lo.values()):
+            continue
+        want = bool_eval(q, lambda leaf: lo[id(leaf)]['verdict'] == '1')
+        if io['err'] != 'none' or (io['verdict'] == '1') != want:
+            ctx.violation('a comparison behaves differently inside a compound (verdict %s, from stand-alone comparisons %s)' % (io['verdict'], want), [c] + list(alone.values())[:6])
+    ctx.exhaustive = not ctx.quick
+    spread_samples(ctx, cs, res)
+
+# ----------------------------------------------------------------------------
+LAW_LEAVES = ['t pr', 'zz pr', 'k gt null', 'k co 1', 'k eq 1', 'k eq 2', 'zz eq 1', 's eq "v"', 's in ["q"]', 'p eq "a"', 'n.x.y eq 1', 'k in true', 'zz eq 99999999999999999999', 'k lt 2.5']
+LAW_OBJ = {'t': I(1), 'k': I(1), 's': S('v'), 'p': ('strpanic',)}
+
+def law_pairs(A, B, C):
+    P = lambda x: '(%s)' % x
+    return [
+        ('double negation', 'not (not (%s))' % A, A, None),
+        ('De Morgan and', 'not (%s and %s)' % (P(A), P(B)), 'not (%s) or not (%s)' % (A, B), None),
+        ('De Morgan or', 'not (%s or %s)' % (P(A), P(B)), 'not (%s) and not (%s)' % (A, B), None),
+        ('associativity and', '(%s and %s) and %s' % (P(A), P(B), P(C)), '%s and (%s and %s)' % (P(A), P(B), P(C)), None),
+        ('associativity or', '(%s or %s) or %s' % (P(A), P(B), P(C)), '%s or (%s or %s)' % (P(A), P(B), P(C)), None),
+        ('idempotence and', '%s and %s' % (P(A), P(A)), A, None),
+        ('idempotence or', '%s or %s' % (P(A), P(A)), A, None),
+        ('commutativity and', '%s and %s' % (P(A), P(B)), '%s and %s' % (P(B), P(A)), 'nofail'),
+        ('commutativity or', '%s or %s' % (P(A), P(B)), '%s or %s' % (P(B), P(A)), 'nofail'),
+    ]
+
+def check_C17(ctx):
+    cs = CaseSet()
+    inst = []
+    objs = [obj(LAW_OBJ), obj({}), obj({'k': I(2), 'zz': I(1), 's': S('q'), 'n': {'x': {'y': I(1)}}})]
+    def add(A, B, C, o, fam):
+        a1, b1 = cs.eval(A, o, fam + '-operand'), cs.eval(B, o, fam + '-operand')
+        for name, lhs, rhs, cond in law_pairs(A, B, C):
+            inst.append((name, cs.eval(lhs, o, fam), cs.eval(rhs, o, fam), cond, a1, b1))
+    # atomic A, B, C over the alphabet {T, F, Fail, undecided, panic}: exhaustive
+    atoms = LAW_LEAVES if not ctx.quick else LAW_LEAVES[:9]
+    for A in atoms:
+        for B in atoms:
+            for C in (atoms if not ctx.quick else ['t pr', 'zz pr', 'k gt null']):
+                add(A, B, C, objs[0], 'law-atomic')
+    # random sub-rules
+    for _ in range(ctx.n(400, 12000)):
+        subs, infos = [], []
+        for _ in range(3):
+            q, info = random_query(ctx.rng, ctx.rng.randint(1, 4), lambda: typed_leaf(ctx.rng, allow_fail=True))
+            subs.append(render(q, Style(ctx.rng) if ctx.rng.random() < 0.3 else Style())); infos += info
+        add(subs[0], subs[1], subs[2], object_for(ctx.rng, infos), 'law-random')
+    res = ctx.run(cs)
+    ctx.compare(cs.cases, res, ['verdict', 'err'], scope=accepted)
+    for name, l, r, cond, a1, b1 in inst:
+        lo, ro = res.impl.get(l.id), res.impl.get(r.id)
+        if not lo or not ro:
+            continue
+        if cond == 'nofail':
+            ao, bo = res.impl.get(a1.id), res.impl.get(b1.id)
+            if not ao or not bo or ao['err'] != 'none' or bo['err'] != 'none':
+                continue
+        lf, rf = lo['err'] != 'none', ro['err'] != 'none'
+        same = (lf and rf) or (not lf and not rf and lo['verdict'] == ro['verdict'])
+        if not same:
+            ctx.violation('%s: outcomes differ (%s/%s vs %s/%s)' % (name, lo['verdict'], lo['err'], ro['verdict'], ro['err']), [l, r])
+    ctx.exhaustive = True
+    spread_samples(ctx, cs, res)
+
+# ----------------------------------------------------------------------------
+def check_C15(ctx):
+    cs = CaseSet()
+    groups = []
+    K = ctx.n(8, 48)
+    for _ in range(ctx.n(450, 5000)):
+        k = ctx.rng.randint(1, 7)
+        q, info = random_query(ctx.rng, k, lambda: typed_leaf(ctx.rng, allow_fail=True))
+        o = object_for(ctx.rng, info)
+        canon = cs.eval(render(q), o, 'canonical', q=q)
+        vs = [cs.eval(render(q, Style(ctx.rng)), o, 'respelled', q=q) for _ in range(K)]
+        # redundant parentheses around the whole rule and around a sub-rule
+        vs.append(cs.eval('(' + render(q) + ')', o, 'extra-parens', q=q))
+        vs.append(cs.eval('( ' + render(q, Style(ctx.rng)) + ' )', o, 'extra-parens', q=q))
+        def wrap_some(x):
+            kk = x[0]
+            if kk in ('pr', 'cmp'):
+                return ('paren', False, x) if ctx.rng.random() < 0.4 else x
+            if kk == 'paren':
+                return ('paren', x[1], wrap_some(x[2]))
+            y = ('logic', x[1], wrap_some(x[2]), wrap_some(x[3]))
+            return ('paren', False, y) if ctx.rng.random() < 0.3 else y
+        vs.append(cs.eval(render(normalize(wrap_some(q)), Style(ctx.rng)), o, 'extra-parens', q=q))
+        groups.append((canon, vs))
+    res = ctx.run(cs)
+    ctx.compare(cs.cases, res, ['accept', 'verdict', 'err', 'dbg'])
+    for canon, vs in groups:
+        co = res.impl.get(canon.id)
+        if not co:
+            continue
+        for v in vs:
+            vo = res.impl.get(v.id)
+            if vo and (vo['verdict'], vo['err'], vo['dbg'] != 'nil') != (co['verdict'], co['err'], co['dbg'] != 'nil'):
+                ctx.violation('respelling changes the outcome: %s/%s/%s vs %s/%s/%s' % (co['verdict'], co['err'], co['dbg'], vo['verdict'], vo['err'], vo['dbg']), [canon, v])
+    spread_samples(ctx, cs, res)
+
+CHECKS.update({'C01': check_C01, 'C02': check_C02, 'C17': check_C17, 'C15': check_C15})
+
+# ----------------------------------------------------------------------------
+def check_C05(ctx):
+    cs = CaseSet()
+    eval_texts(ctx, cs, ctx.n(500, 12000), 5, ctx.n(800, 20000), ctx.n(150, 3000), objs_per=1)
+    # objects that make the first comparison of the statement's examples true
+    for t in FIXED_TEXTS:
+        cs.eval(t, obj({'x': I(1), 'y': I(2), 'z': I(3), 'order': I(1), 'a-b_c:d': I(1), 'prx': I(1)}), 'text-fixed')
+        cs.eval(t, obj({'x': I(0), 'y': I(2)}), 'text-fixed')
+    res = ctx.run(cs)
+    ctx.compare(cs.cases, res, ['accept', 'verdict', 'err', 'ev3'])
+    nrej = 0
+    for c in cs.cases:
+        mo, io = res.model.get(c.id), res.impl.get(c.id)
+        if not mo or not io or 'accept' not in mo:
+            continue
+        if mo['accept'] == '0':
+            nrej += 1
+            ctx.nontrivial.add(c.line.split(' ', 2)[2])
+            if io.get('verdict') != '0' or io.get('err') == 'none' or io.get('ev3') != '010':
+                ctx.violation('a text that is not a sentence of the grammar is not rejected on every entry point: verdict=%s err=%s (rules.Evaluate verdict, error?, parser.Evaluate)=%s' % (io.get('verdict'), io.get('err'), io.get('ev3')), [c], impl=io)
+    ctx.extra['accept_reject'] = {'rejected_by_recogniser': nrej, 'accepted': len(cs.cases) - nrej}
+    spread_samples(ctx, cs, res)
+
+def check_C20(ctx):
+    cs = CaseSet()
+    def add(text, fam, **meta):
+        cs.syntax(text, fam, **meta)
+    fam_text(add, ctx.rng, ctx.n(600, 20000), 5, ctx.n(1500, 40000), ctx.n(200, 4000))
+    for t in FIXED_TEXTS:
+        cs.syntax(t, 'text-fixed')
+    # token-level facts named in the statement
+    for t in ['order', 'or', 'ordering', 'andy', 'and', 'nota', 'not', 'notx', 'prx', 'pr', 'p', 'eqx', 'eq', 'nullx', 'null', 'truex', 'in1', 'IN', 'In',
+              '1.2.3', '1.2', '1.2.', '1.2.3.4', '1..2', '<=', '<', '<==', '>=', '=>', '!=', '!', '=', '==', '===', 'a-b', 'a_b', 'a:b', 'a.b', 'a1', '1a', '-a', '_a', ':a', 'a-',
+              'e5', 'e+5', 'E-5', '1e5', '1e+5', '1.5e5', '1.5e+5', '1.5e', '-1', '-1.5', '- 1', '--1', '01', '0', '00', '0.0', '00.0', '-0.5', '1.0.0', '01.0.0', '1.00.0',
+              '""', '"a"', '"a', 'a"', '"\\n"', '"\\x"', '"\\u12ab"', '"\\u12a"', '"\n"', '"a"b"', ',', ', ', ',  ', ' ,', ' ', '  ', ' \n', '\n', '\n ', ' \n\n ', '\r', '\t']:
+        cs.syntax(t, 'token-facts')
+    res = ctx.run(cs)
+    ctx.compare(cs.cases, res, ['lexok', 'toks', 'accept', 'tree'], nontrivial=lambda c, mo: True)
+    nacc = sum(1 for c in cs.cases if (res.model.get(c.id) or {}).get('accept') == '1')
+    ctx.extra['accept_reject'] = {'accepted': nacc, 'rejected': len(cs.cases) - nacc}
+    spec_violations(ctx, 'shipped lexer/parser vs grammar')
+    spread_samples(ctx, cs, res)
+
+# ----------------------------------------------------------------------------
+HOSTILE = [('strpanic',), ('strnilptr',), ('nilmap',), ('nil',), F(float('nan')), F(float('inf')), F(float('-inf'))] + [('o', t) for t in range(21)] + \
+          [('str', b'abc'), ('strptr', b'1.0.0'), ('m', [(b'y', ('strpanic',))]), ('m', [(b'y', ('o', 3))])]
+
+def check_C07(ctx):
+    cs = CaseSet()
+    lits = ['1', '-1', '1.5', '"abc"', '1.0.0', 'true', 'null', '[1,2]', '[1.5]', '["abc"]', '99999999999999999999', '1.0e999', '[99999999999999999999]']
+    for h in HOSTILE:
+        for lit in lits:
+            for op in OPS:
+                sp = OP_SPELL[op][0]
+                cs.eval('x %s %s' % (sp, lit), obj({'x': h}), 'hostile-leaf')
+                cs.eval('x.y %s %s' % (sp, lit), obj({'x': h}), 'hostile-midpath')
+        cs.eval('x pr', obj({'x': h}), 'hostile-leaf')
+        cs.eval('x.y.z pr', obj({'x': {'y': h}}), 'hostile-midpath')
+        cs.eval('x.y pr or k eq 1', obj({'x': h, 'k': I(1)}), 'hostile-midpath')
+    eval_texts(ctx, cs, ctx.n(150, 5000), 4, ctx.n(300, 10000), ctx.n(600, 40000))
+    for depth in ([100, 1000] if ctx.quick else [100, 1000, 2000]):
+        cs.eval('(' * depth + 'x eq 1' + ')' * depth, obj({'x': I(1)}), 'deep-parens')
+        cs.eval('not (' * depth + 'x eq 1' + ')' * depth, obj({'x': I(1)}), 'deep-parens')
+        cs.eval('(' * depth, obj({}), 'deep-parens')
+        cs.eval(' and '.join(['x eq 1'] * depth), obj({'x': I(1)}), 'long-chain')
+        cs.eval('.'.join(['a'] * depth) + ' pr', obj({'a': {'a': {'a': I(1)}}}), 'long-path')
+        cs.eval('x in [' + ','.join(['1'] * depth) + ']', obj({'x': I(1)}), 'long-list')
+    # each batch in its own child process: a killed process is observed and attributed
+    res = ctx.run(cs, nshards=ctx.n(16, 32))
+    ctx.compare(cs.cases, res, ['verdict', 'err'])
+    for cr in ctx.crashes:
+        if cr[0] == 'impl':
+            c = cs.by_id.get(cr[4])
+            ctx.violation('the driver process died (rc %s) while running this case: %s' % (cr[2], cr[3][-400:]), [c] if c else [])
+    for c in cs.cases:
+        io = res.impl.get(c.id)
+        if not io:
+            continue
+        if io.get('escaped') != '0':
+            ctx.violation('a panic escaped a public call', [c], impl=io)
+        elif io.get('dbgtext') == 'panic' or 'panic' in io.get('errtext', ''):
+            ctx.violation('Error() of a returned error panicked (dbgtext=%s errtext=%s)' % (io.get('dbgtext'), io.get('errtext')), [c], impl=io)
+        elif io.get('err') != 'none' and io.get('verdict') != '0':
+            ctx.violation('an error was returned together with verdict true', [c], impl=io)
+    ctx.extra['not_exhibited_by_model'] = 'panics inside the ANTLR runtime, fmt or encoding/json; fatal runtime errors (stack exhaustion, out of memory); user-defined marshalling (excluded by the statement). These are only sampled: every batch runs in a child process whose death is reported.'
+    spread_samples(ctx, cs, res)
+
+# ----------------------------------------------------------------------------
+def rand_history(ctx, info, n):
+    ops = []
+    for _ in range(n):
+        r = ctx.rng.random()
+        if r < 0.7:
+            o = object_for(ctx.rng, info) if ctx.rng.random() < 0.8 else ctx.rng.choice(SMALL_OBJS)
+            if ctx.rng.random() < 0.1 and info:
+                leaf = ctx.rng.choice(info)[0]
+                o = ('m', o[1] + [(leaf[1][0].encode(), ctx.rng.choice(HOSTILE))])
+            ops.append(('p', o))
+        elif r < 0.85:
+            ops.append(('r',))
+        else:
+            ops.append(('d',))
+    return ops
+
+def check_C11(ctx):
+    cs = CaseSet()
+    hs = []
+    for i in range(ctx.n(500, 15000)):
+        if ctx.rng.random() < 0.85:
+            q, info, text = random_sentence(ctx.rng, 4)
+        else:
+            text, info = ctx.rng.choice(FIXED_TEXTS), []
+        ops = rand_history(ctx, info, ctx.rng.randint(1, ctx.n(12, 120)))
+        h = cs.hist(text, ops, 'hist')
+        fresh = [cs.eval(text, o[1], 'hist-fresh') if o[0] == 'p' else None for o in ops]
+        hs.append((h, ops, fresh))
+    res = ctx.run(cs)
+    ctx.compare([c for c in cs.cases if c.kind == 'hist'], res, ['out'], nontrivial=lambda c, mo: True)
+    for h, ops, fresh in hs:
+        io = res.impl.get(h.id)
+        if not io or 'out' not in io or io['out'] == 'NEWERR':
+            continue
+        outs = io['out'].split(';')
+        last = None
+        for k, (op, o, f) in enumerate(zip(ops, outs, fresh)):
+            if op[0] == 'p':
+                fo = res.impl.get(f.id)
+                if not fo:
+                    continue
+                v, e, d = o[1:].split(',')
+                if (v, e, d != 'nil') != (fo['verdict'], fo['err'], fo['dbg'] != 'nil'):
+                    ctx.violation('call %d on a reused evaluator gave %s, a fresh evaluator gives %s/%s/%s' % (k, o, fo['verdict'], fo['err'], fo['dbg']), [h, f])
+                    break
+                last = d
+            elif op[0] == 'r':
+                last = 'nil'
+            else:
+                want = last if last is not None else 'nil'
+                if o[1:] != want:
+                    ctx.violation('LastDebugErr at step %d is %s, the latest Process/Reset left %s' % (k, o[1:], want), [h])
+                    break
+    # creation order / warm caches: the same cases in different orders, each order in its own process
+    sub = [c for c in cs.cases if c.kind == 'hist'][: ctx.n(150, 2000)]
+    base = {c.id: res.impl.get(c.id) for c in sub}
+    for rep in range(ctx.n(2, 6)):
+        order = list(sub)
+        ctx.rng.shuffle(order)
+        r2 = run_cases(order, ctx.work, nshards=ctx.rng.choice([1, 2, 3]), label='perm%d' % rep, sides=('impl',))
+        ctx.evaluations += len(order)
+        for c in order:
+            if r2.impl.get(c.id) != base[c.id]:
+                ctx.violation('result depends on which evaluators were created before (parser caches): %s vs %s' % (base[c.id], r2.impl.get(c.id)), [c])
+    ctx.extra['not_modelled'] = 'ANTLR process-wide ATN/DFA caches: sampled by replaying the histories in permuted creation orders, each order in a fresh process'
+    spread_samples(ctx, cs, res)
+
+# ----------------------------------------------------------------------------
+def check_C13(ctx):
+    cs = CaseSet()
+    eval_texts(ctx, cs, ctx.n(400, 10000), 2, ctx.n(200, 5000), ctx.n(50, 1000), objs_per=2)
+    fam_leaf_exh(cs, ctx.rng, stride=ctx.n(7, 1))
+    fail_compounds(ctx, cs, ctx.n(500, 10000))
+    for h in HOSTILE:
+        for t in ['x eq "a"', 'x.y eq 1', 'x in ["a"]', 'x eq 1', 'n.x pr and x co "a"', 'x pr or x.y.z eq 1']:
+            cs.eval(t, obj({'x': h, 'n': {'x': h}}), 'hostile')
+    hs = []
+    for _ in range(ctx.n(100, 2000)):
+        q, info, text = random_sentence(ctx.rng, 4)
+        hs.append(cs.hist(text, rand_history(ctx, info, 6), 'hist'))
+    res = ctx.run(cs)
+    ctx.compare([c for c in cs.cases if c.kind == 'eval'], res, ['verdict', 'err'])
+    for c in cs.cases:
+        io = res.impl.get(c.id)
+        if c.kind == 'eval' and io and io.get('frame') != '1':
+            ctx.violation('the input object was modified by the call', [c], impl=io)
+    ctx.extra['not_modelled'] = 'aliasing through values retained by a diagnostic (kept, never written); sharing between sub-objects is not generated (objects are trees)'
+    spread_samples(ctx, cs, res)
+
+CHECKS.update({'C05': check_C05, 'C20': check_C20, 'C07': check_C07, 'C11': check_C11, 'C13': check_C13})
